@@ -151,20 +151,39 @@ class Codec:
         valid_idx = rawmsg.find(b"8=FIX.")
         if valid_idx == -1:
             assert silent, "no fix header"
-            return None, len(rawmsg), None
+            # keep a possibly split frame-start marker at the end of the buffer
+            keep = 0
+            for n in range(min(5, len(rawmsg)), 0, -1):
+                if rawmsg.endswith(b"8=FIX."[:n]):
+                    keep = n
+                    break
+            return None, len(rawmsg) - keep, None
 
         parsed_length = valid_idx
 
         msg = rawmsg[valid_idx:].decode("latin-1")
 
-        next_msg = msg[5:].find("8=FIX.")
+        # The frame ends with its CheckSum field, or where the next frame starts
+        # (values can't contain SOH, so these can't be part of a tag value)
+        next_msg = msg.find(self.SOH + "8=FIX.", 5)
         if next_msg != -1:
-            # Next fix message added, but incomplete
-            next_msg += 5
+            next_msg += 1
+        checksum_end = -1
+        checksum_start = msg.find(self.SOH + "10=")
+        if checksum_start != -1:
+            checksum_end = msg.find(self.SOH, checksum_start + 1) + 1
+        if checksum_end > 0 and (next_msg == -1 or checksum_end <= next_msg):
+            next_msg = checksum_end
+            is_complete = True
         else:
-            next_msg = len(msg)
+            is_complete = next_msg != -1
+            if next_msg == -1:
+                next_msg = len(msg)
 
         encoded_msg = rawmsg[valid_idx : next_msg + valid_idx]
+        # in case of garbled header, skip to the next frame start marker (if any)
+        skip_length = msg.find("8=FIX.", 5)
+        skip_length = len(rawmsg) if skip_length == -1 else valid_idx + skip_length
 
         msg = msg[:next_msg].split(self.SOH)
         if not msg[-1]:
@@ -173,6 +192,9 @@ class Codec:
         # at a minimum we require BeginString, BodyLength & Checksum
         if len(msg) < 3:
             assert silent, "Minimum message"
+            if is_complete:
+                # fragment followed by another frame, it will never be completed
+                return (None, valid_idx + next_msg, None)
             return (None, parsed_length, None)
 
         tag, value = msg[0].split("=", 1)
@@ -182,26 +204,34 @@ class Codec:
                 % (value, self.protocol.beginstring)
             )
             assert silent, "protocol beginstring mismatch"
-            return (None, len(rawmsg), None)
+            return (None, skip_length, None)
 
         toks = msg[1].split("=", 1)
         if len(toks) != 2:
             assert silent, f"BodyLength split error {msg}"
-            return (None, len(rawmsg), None)
+            return (None, skip_length, None)
         tag, value = toks
 
         msg_length = len(msg[0]) + len(msg[1]) + len("10=000") + 3
         if tag != FTag.BodyLength:
             logging.error(f"*** BodyLength missing or not 2nd field *** [{tag}]: {msg}")
             assert silent, "2nd tag must be BodyLength"
-            return (None, len(rawmsg), None)
+            return (None, skip_length, None)
+        elif not (value.isascii() and value.isdigit()):
+            logging.error(f"*** BodyLength is not a number *** [{value}]: {msg}")
+            assert silent, "BodyLength must be a number"
+            return (None, valid_idx + next_msg, None)
         else:
             msg_length += int(value)
 
         # message looks incomplete
-        if msg_length > len(rawmsg):
+        if not is_complete and msg_length > len(rawmsg) - valid_idx:
             assert silent, "incomplete message"
             return (None, parsed_length, None)
+
+        if is_complete:
+            # exact frame end is known
+            msg_length = next_msg
 
         checksum_passed = False
         parsed_length += msg_length
@@ -215,16 +245,20 @@ class Codec:
             toks = m.split("=", 1)
             if len(toks) != 2:
                 assert silent, f"incomplete tag {m}"
-                return (None, len(rawmsg), None)
+                return (None, parsed_length, None)
             tag, value = toks
+
+            if not (tag.isascii() and tag.isdigit()):
+                assert silent, f"invalid tag {m}"
+                return (None, parsed_length, None)
 
             if tag == FTag.CheckSum:
                 cheksum_base = self.SOH.join(msg[:-1])
                 checksum = (sum([ord(i) for i in cheksum_base]) + 1) % 256
 
-                if checksum != int(value):
+                if not (value.isascii() and value.isdigit()) or checksum != int(value):
                     logging.warning(
-                        "\tCheckSum: %s (INVALID) expecting %s" % (int(value), checksum)
+                        "\tCheckSum: %s (INVALID) expecting %s" % (value, checksum)
                     )
                     assert (
                         silent
@@ -270,6 +304,14 @@ class Codec:
                     current_context = current_context.parent
                     # pop the completed group off the stack
                     del repeating_groups[-1]
+
+                if not repeating_groups:
+                    # all groups are completed, back to the message level
+                    if tag in decoded_msg:
+                        decoded_msg.set(tag, RepeatingTagError)
+                    else:
+                        decoded_msg.set(tag, value)
+                    continue
 
                 if tag in current_context.tags:
                     # if the repeating group already contains this field,
